@@ -63,6 +63,8 @@ type ragg struct {
 	preDefault    int // evaluations with a scripted status on the response, handled by the default handler
 	preAny        int // evaluations with an error and a scripted status on the response
 	afterSendFile int // evaluations whose error reached the framework after a c.SendFile call in the chain
+	viaLogger     int // evaluations whose error came back to a logger middleware (which delivers it itself)
+	panicked      int // evaluations whose error was a panic turned into an error by recover.New
 	// the app the rule selects (under an accepted reading) answers with the default handler:
 	// the root without handler, or an app that names fiber.DefaultErrorHandler explicitly
 	defaultOK bool
@@ -112,6 +114,8 @@ func (a *ragg) merge(b *ragg) {
 	a.preDefault += b.preDefault
 	a.preAny += b.preAny
 	a.afterSendFile += b.afterSendFile
+	a.viaLogger += b.viaLogger
+	a.panicked += b.panicked
 	a.defaultOK = a.defaultOK || b.defaultOK
 	a.flipWithin = a.flipWithin || b.flipWithin
 	for k, v := range b.ids {
@@ -197,6 +201,12 @@ func judgeEval(ts *treeSpec, rq *reqSpec, s *slot, resp *drive.Resp, build int, 
 	if s.sent > 0 {
 		a.afterSendFile++
 	}
+	if s.loggerSaw > 0 {
+		a.viaLogger++
+	}
+	if s.panicked > 0 {
+		a.panicked++
+	}
 	a.errKind, a.posClass = kind, pos
 	src := "handler-returned-error"
 	if framework {
@@ -231,9 +241,10 @@ func judgeEval(ts *treeSpec, rq *reqSpec, s *slot, resp *drive.Resp, build int, 
 	case s.nH == 1:
 		id = s.hID[0]
 	default:
-		// No recording handler ran. If the root has no configured handler this is the root's
-		// (default) handler by construction of the tree; otherwise look at the response.
-		if ts.records(0) && !a.defaultOK {
+		// No recording handler ran. If the rule selects an app that answers with the default
+		// handler that is expected; otherwise the response tells whether some default handler
+		// answered (wrong handler, classified later) or nobody did (count zero).
+		if !a.defaultOK {
 			looksDefault := false
 			if framework {
 				looksDefault = status == 404 || status == 405
@@ -888,6 +899,11 @@ func (rn *runner) judgeTree(c *ev.Case, ts *treeSpec, reqs []reqSpec) map[string
 		e.Stat("recording_body_overwritten", int64(a.bodyOdd))
 		e.Stat("errors_with_earlier_status_on_response", int64(a.preAny))
 		e.Stat("errors_after_sendfile_in_chain", int64(a.afterSendFile))
+		e.Stat("errors_delivered_through_logger_middleware", int64(a.viaLogger))
+		e.Stat("errors_from_recovered_panics", int64(a.panicked))
+		if a.withErr > 0 && rq.Plan.Kind >= kSentinel {
+			e.Stat("requests_with_sentinel_error_values", 1)
+		}
 		e.Stat("errors_with_earlier_status_default_handler", int64(a.preDefault))
 		var keys []string
 		for k := range a.raisedAt {
@@ -995,6 +1011,15 @@ func run(e *ev.Env) {
 		}
 		if len(ts.Extra) > 0 {
 			e.Stat("trees_app_mounted_twice", 1)
+		}
+		for i := range ts.Apps {
+			if ts.Apps[i].Logger != logNone {
+				e.Stat("trees_with_logger_middleware", 1)
+				break
+			}
+		}
+		if ts.RootRecover {
+			e.Stat("trees_with_recover_middleware", 1)
 		}
 		for i := 1; i < len(ts.Apps); i++ {
 			if ts.Apps[i].ViaGroup {
@@ -1360,6 +1385,57 @@ func corpus(e *ev.Env, rn *runner) {
 						get("/reports/daily/p", none), get("/reports/zz", none), get("/reports/e", teapot(1, posEp)),
 						get("/users/zz", none), get("/users/e", teapot(3, posEp)), get("/zz", none), get("/e", teapot(0, posMwPost))})
 				}
+			}
+		}
+	})
+	// error values that are or wrap standard sentinel errors, at every position, under recording,
+	// failing and default handlers: delivered once like any other error, status from the
+	// *fiber.Error inside (else 500)
+	e.Corpus("sentinel-error-values", func(c *ev.Case) {
+		ts := mkTree(hNone, appSpec{Parent: 0, Rel: "/api", Handler: hOK, Mw: true}, appSpec{Parent: 0, Rel: "/web", Handler: hNone, Mw: true},
+			appSpec{Parent: 0, Rel: "/adm", Handler: hFailPlain})
+		var reqs []reqSpec
+		for k := kSentinel; k <= kJoinSentinels; k++ {
+			for sn := range sentinels {
+				for app, p := range []string{"", "/api", "/web", "/adm"} {
+					pos := []int{posEp, posMwPre, posMwPost}[(k+sn+app)%3]
+					if !ts.Apps[app].Mw {
+						pos = posEp
+					}
+					reqs = append(reqs, get(p+"/e", plan{App: app, Pos: pos, Kind: k, Code: 503, Sent: sn}))
+				}
+			}
+		}
+		rn.judgeTree(c, ts, reqs)
+	})
+	// the repository's error-aware middlewares in the chains: logger.New (custom format, Skip
+	// always / never, default format) at root and sub-app level delivers the chain's error
+	// itself and must not hand it on; recover.New turns a panic into the chain's error
+	e.Corpus("logger-and-recover-middleware", func(c *ev.Case) {
+		for kind := logFormat; kind <= logDefault; kind++ {
+			for _, where := range []int{0, 1, 2} { // logger at the root, at /api, at both
+				ts := mkTree(hOK, appSpec{Parent: 0, Rel: "/api", Handler: hOK, Mw: true}, appSpec{Parent: 1, Rel: "/v1", Handler: hFailPlain},
+					appSpec{Parent: 0, Rel: "/web", Handler: hNone})
+				ts.RootRecover = kind%2 == 0
+				if where != 1 {
+					ts.Apps[0].Logger = kind
+				}
+				if where != 0 {
+					ts.Apps[1].Logger = kind
+				}
+				reqs := []reqSpec{get("/api/e", teapot(1, posEp)), get("/api/e", teapot(1, posMwPre)), get("/api/e", teapot(1, posMwPost)),
+					get("/api/zz", none), get("/api/p", none), get("/api/v1/e", teapot(2, posEp)), get("/api/v1/zz", none),
+					get("/web/e", teapot(3, posEp)), get("/web/zz", none), get("/e", teapot(0, posEp)), get("/zz", none),
+					get("/api/e", teapot(0, posMwPre)), get("/api/e", teapot(0, posMwPost)), get("/api/e", none)}
+				if ts.RootRecover {
+					for _, rq := range reqs[:8] {
+						if rq.Plan.Pos != posNone {
+							rq.Plan.Panic = true
+							reqs = append(reqs, rq)
+						}
+					}
+				}
+				rn.judgeTree(c, ts, reqs)
 			}
 		}
 	})
